@@ -33,7 +33,8 @@ def content(t, k):
     ids = [1, 2, 3 + k, 10 + t]
     nodes = [{'id': PURL + '%s_%07d' % (pre, i), 'lbl': 'term %d' % i, 'type': 'CLASS'} for i in ids]
     edges = [{'sub': PURL + '%s_%07d' % (pre, i), 'pred': 'is_a', 'obj': PURL + '%s_%07d' % (pre, 1)} for i in ids[1:]]
-    return json.dumps({'graphs': [{'id': 'x', 'meta': {}, 'nodes': nodes, 'edges': edges}]}).encode('utf-8')
+    # the document is larger than one network read (see Response.read): a member the loader ignores pads it to ~20 KiB
+    return json.dumps({'graphs': [{'id': 'x', 'meta': {}, 'nodes': nodes, 'edges': edges}], 'padding': 'x' * 20000}).encode('utf-8')
 
 
 def expected_terms(t, k):
@@ -65,9 +66,15 @@ class Response(io.BytesIO):
         self._plan = plan
 
     def read(self, *a):
-        gate('read')
+        if not getattr(self, '_read_started', False):      # one model boundary per download, however many reads it takes
+            self._read_started = True
+            gate('read')
         if self._plan == 'read':
             raise Fault('connection reset while reading')
+        if a and a[0] is not None and a[0] > 0:
+            # a sized read behaves like a socket: it hands over what has arrived (at most 8 KiB), not what was asked for;
+            # only b'' means end of stream
+            return super().read(min(a[0], 8192))
         return super().read(*a)
 
 
